@@ -129,6 +129,16 @@ def s15_2(ctx, P):
         ctx.check(P + ':S15-2:sed-table', 'R-table', 'SED container accepts only V3_4 session keys', acc == {'V3_4'} and bool(sinks), function=b.path, table=sorted(acc))
 
 
+def only_via_true_edge(b, sinks, flag_switches):
+    """Every path from entry to a sink uses the TRUE edge of one of the boolean flag switches (switchInt [0: false, otherwise:
+    true]): with those edges removed no sink is reachable.  `flag || other` fails this (the sink is reachable with the flag false)."""
+    if not sinks or not flag_switches:
+        return False, None
+    true_edges = frozenset((g, b.blocks[g]['t']['else']) for g in flag_switches)
+    w = b.find_path(0, set(sinks), removed_edges=true_edges)
+    return (w is None), w
+
+
 def s15_3(ctx, P):
     b = ctx.body("composed::message::types::Edata::<'a>::decrypt_with_options")
     if b is not None:
@@ -143,12 +153,12 @@ def s15_3(ctx, P):
             return out
         sed = call_blocks(b, r'SymEncryptedDataReader.*::decrypt$')
         g = field_switches('legacy')
-        ok, wit = must_pass(b, sed, g)
+        ok, wit = only_via_true_edge(b, sed, g)
         ctx.check(P + ':S15-3:sed-needs-legacy', 'R-dom', 'SED decryption is reached only through the DecryptionOptions.legacy branch', ok and bool(g) and bool(sed),
                   function=b.path, guards=[site(b, x) for x in g], sinks=[site(b, x) for x in sed], witness=fmt_path(b, wit) if wit else None)
         gn = [i for i in call_blocks(b, r'SymEncryptedProtectedDataReader.*::decrypt$') if ('Edata', ['GnupgAeadData']) in arm_context(b, i, dom)]
         g = field_switches('gnupg_aead')
-        ok, wit = must_pass(b, gn, g)
+        ok, wit = only_via_true_edge(b, gn, g)
         ctx.check(P + ':S15-3:gnupg-needs-optin', 'R-dom', 'GnuPG AEAD decryption is reached only through the DecryptionOptions.gnupg_aead branch', ok and bool(g) and bool(gn),
                   function=b.path, guards=[site(b, x) for x in g], sinks=[site(b, x) for x in gn], witness=fmt_path(b, wit) if wit else None)
     b = ctx.body("composed::message::types::TheRing::<'_>::find_session_key")
